@@ -22,6 +22,18 @@ TRUSTED_BASE = [
 FORBIDDEN = re.compile(r'\b(Admitted|admit|Axiom|Axioms|Parameter|Parameters|Conjecture|Hypothesis|Hypotheses|Variable|Variables)\b|Unset\s+Guard|bypass_check|type-in-type|impredicative-set|Admit Obligations')
 
 
+def theorems_of(pid):
+    """names of the property theorems in coq/theories/Properties/<pid>.v (each must have its Print Assumptions)"""
+    path = os.path.join(COQ, 'theories', 'Properties', pid + '.v')
+    try:
+        txt = re.sub(r'\(\*.*?\*\)', '', open(path).read(), flags=re.S)
+    except FileNotFoundError:
+        return []
+    names = re.findall(r'^(?:Theorem|Lemma)\s+(\w+)', txt, flags=re.M)
+    printed = set(re.findall(r'^Print Assumptions\s+(\w+)\.', txt, flags=re.M))
+    return [n for n in names if n in printed]
+
+
 class Ctx:
     def __init__(self, pid, tier, seed):
         self.pid = pid
